@@ -314,3 +314,11 @@ class Check:
             print(violation_line)
             return 1
         return 0
+
+
+def rerun_by_seed(prop: str, r: dict) -> int:
+    """replay of last resort for failing inputs that are fully determined by (VERIF_SEED, tier): run the check again with the recorded ones"""
+    import subprocess
+    print(f"{prop} replay: these cases are determined by VERIF_SEED; re-running the check with the recorded seed {r.get('seed', 0)} ({r.get('tier', 'quick')})")
+    return subprocess.call([sys.executable, str(Path(__file__).resolve().parents[1] / "check.py"), prop, "--tier", r.get("tier", "quick")],
+                           env=dict(os.environ, VERIF_SEED=str(r.get("seed", 0))))
